@@ -23,7 +23,10 @@ LEVEL_NOTE = ("theorems are about model/CopyOps.v (copy_ecu, copy_frame, copy_ec
               "environment variables of merge are modelled and tied, no theorem; the property fixes no ORDER of target.ecus / "
               "target.frames / free signals / the define and attribute dicts / ENUM value lists: the oracle judges sets (which frames, "
               "which ECUs, which definitions, the values), the tie compares normal forms modulo those orders (canon()), the model keeps "
-              "the order of the code it was read from")
+              "the order of the code it was read from; also outside the statement and therefore not tied: which further values an ENUM "
+              "value list offers after a copy, definitions that give no object a value (copy_signal brings them, copy_frame does not), "
+              "copy_frame for an id the source does not have and copy_signal with a valueless ENUM definition (the model's m_err "
+              "paths for these are not requested by the generators)")
 
 CATS = ("sig", "frame", "ecu", "glob")
 CATNUM = {"sig": 0, "frame": 1, "ecu": 2, "glob": 3}
@@ -366,10 +369,13 @@ def canon(groups):
 
 
 def _canon(groups):
-    """Normal form modulo the orders the property does not fix: ECU list, frame list, free-signal list, the define dicts, the
-    attribute dicts of every object, ENUM value lists, global attributes, environment variables.  Kept: the signals of a frame
-    in order, transmitter and receiver lists in order, every field.  Sorting is stable, so frames sharing an identifier
-    (malformed stream) keep their relative order."""
+    """Normal form modulo what the property does not fix.  Orders: ECU list, frame list, free-signal list, the define dicts, the
+    attribute dicts of every object, global attributes, environment variables.  Content: the value LIST of an ENUM definition
+    (the property speaks of effective values and of the definitions the copied objects use, not of which further values a list
+    offers; that the definition string is the rendered list stays visible through the definition field) and definitions without
+    default (they give no object a value).  Kept: the signals of a frame in
+    order, transmitter and receiver lists in order, every field, every definition's string/type/default.  Sorting is stable,
+    so frames sharing an identifier (malformed stream) keep their relative order."""
     def sort_pairs(flat):
         ps = sorted((flat[i], flat[i + 1]) for i in range(0, len(flat) - 1, 2))
         return [z for p in ps for z in p]
@@ -389,9 +395,13 @@ def _canon(groups):
             else:
                 free.append(h)
         elif t == 5:
-            defs.append(g[:6] + sorted(g[6:]))
+            defs.append(g[:6])         # [5, cat, name, definition (0 for a consistent ENUM string), type, default]: no value list
         else:
             rest.append(g)
+    # a definition without default gives no object a value (explicit values do not come from it): whether it is in the target is
+    # not observable through effective values; that the definitions the copied objects USE are brought is the oracle's
+    # define-not-brought / define-differs
+    defs = [g for g in defs if g[5] != -1]
     ecus.sort(key=lambda g: g[1])
     blocks.sort(key=lambda b: (b[0][1], b[0][2]))
     free.sort()
@@ -607,11 +617,9 @@ def systematic_cases():
                             if names != "distinct":
                                 ops = [ops[0], ops[1], ops[4], ops[8]]
                             if cat == "sig" and enum and sstate == "novalue":
-                                # copy_signal has no `is None: continue`: an ENUM definition without default and a signal without value
-                                # makes Define.update() raise (outside the property's text; tied as an error)
-                                for o, _ in ops:
-                                    if o[0]["op"] == "signal":
-                                        o[0]["expect_raise"] = True
+                                # copy_signal and an ENUM definition the signal has no value for (no explicit value, no default): the
+                                # property says nothing about it (the code as read raises in Define.update()) - not requested
+                                ops = [(o, ss) for o, ss in ops if o[0]["op"] != "signal"]
                             for o, srcs in ops:
                                 cell = "%s/%s/tgt-%s/src-%s/byst-%s%s%s" % (cat, "ENUM" if enum else "STRING", tstate, sstate, byst,
                                                                             "/same-named-ecu" if pre_a else "",
@@ -630,7 +638,7 @@ def gen_matrix(rng, shared=False, malformed=False, ecu_pool=("E0", "E1", "E2", "
             if rng.random() < 0.6:
                 if kind_of(a) == "ENUM":
                     lst = rng.choice(ENUM_LISTS)
-                    dv = rng.choice(lst + ([None] if (cat != "sig" or malformed) else []) + (["d"] if rng.random() < 0.2 else []))
+                    dv = rng.choice(lst + ([None] if cat != "sig" else []) + (["d"] if rng.random() < 0.2 else []))
                     ds = defstr(a, lst)
                     if malformed and rng.random() < 0.3:
                         ds = "STRING"            # equal name, other kind: AttributeError path
@@ -686,10 +694,10 @@ def gen_op(rng, src, tgt, malformed):
     kind = rng.choice(["frame", "frame", "ecu", "ecu_frames", "ecu_frames", "signal", "merge"])
     if kind == "frame":
         pool = [(f["id"], f["ext"]) for f in src["frames"]]
-        if not pool or (malformed and rng.random() < 0.3):
-            if not malformed:
-                return dict(op="merge", n=1)
-            return dict(op="frame", id=0x7F0, ext=False, expect_raise=True)
+        if not pool:
+            # an id that names no frame of the source is not a copy request of the quantifier ("frame by id"): what happens then
+            # (exception, refusal) is neither judged nor tied, so it is not generated
+            return dict(op="merge", n=1)
         fid, ext = rng.choice(pool)
         return dict(op="frame", id=fid, ext=ext)
     if kind == "merge":
